@@ -851,6 +851,7 @@ func getRootHash(hashKey []byte) (hash []byte, err error) {
 	if !bytes.Contains(hashKey, []byte(rootHashHeightPrefix)) {
 		return nil, types.ErrSize
 	}
-	hash = hashKey[len(hashKey)-sha256Len:]
+	// the caller may hand in an iterator's key buffer, which is only valid until the iterator moves
+	hash = append([]byte(nil), hashKey[len(hashKey)-sha256Len:]...)
 	return hash, nil
 }
